@@ -11,6 +11,7 @@ import (
 )
 
 func init() {
+	verifHarnesses["VerifHarness_C19_bigbatch"] = VerifHarness_C19_bigbatch
 	verifHarnesses["VerifHarness_C20_forever"] = VerifHarness_C20_forever
 	verifHarnesses["VerifHarness_C18_nolock"] = VerifHarness_C18_nolock
 	verifHarnesses["VerifHarness_C19_scan"] = VerifHarness_C19_scan
@@ -362,5 +363,78 @@ func VerifHarness_C20_forever() {
 	if F == 0 && !anyForeign {
 		// (an untainted node outside the cloud group may be tainted by scan 1 and fall due in scan 2)
 		verifAssert("C20.loop-runs-to-the-stop", stopped)
+	}
+}
+
+
+// VerifHarness_C19_bigbatch: one reaping scan over a large batch (N expired tainted nodes).
+// The batch is one request to the cloud: it is refused as a whole if it would breach the group's
+// minimum, and no Node object is deleted before the cloud accepted the termination of every
+// instance of the batch -- however large the batch is.
+// mode 0: one node (symbolic position, or none) is not a member of the cloud group
+// mode 1: the k-th termination (symbolic) is rejected by the cloud
+// mode 2: the cloud group's minimum allows fewer removals than the batch holds (symbolic slack)
+// shape: [nodes, mode]
+func VerifHarness_C19_bigbatch() {
+	N, mode := verifShape(0), verifShape(1)
+	w := newWorld(0)
+	o := groupOpts(0)
+	gm := graceMenus[1]
+	o.SoftDeleteGracePeriod, o.HardDeleteGracePeriod = gm.soft, gm.hard
+	o.MinNodes, o.MaxNodes = 0, 2*N+3
+	asgMin := int64(0)
+	slack := int64(N)
+	if mode == 2 {
+		slack = verifInt("removable", 0, int64(N)) // desired - min
+		asgMin = int64(N) + 1 - slack
+	}
+	g := w.addGroup(o, asgMin, int64(2*N)+3, 0)
+	w.addNode(g, tcNone, false, 0, 0, 9000, true)
+	foreignAt := int64(-1)
+	if mode == 0 {
+		foreignAt = verifInt("foreignAt", -1, int64(N)-1)
+	}
+	for i := 0; i < N; i++ {
+		w.addNode(g, tcEsc, false, 0, 1000, int64(5000+i), int64(i) != verifConcrete(foreignAt))
+	}
+	w.build()
+	if mode == 1 {
+		w.AS.TermFailAt(int(verifInt("terminateFailAt", 1, int64(N))))
+	}
+	verifFreezeClock(w.base+1, 0)
+	mark := len(w.J.Calls)
+	err := w.ctrl.RunOnce()
+	verifUnfreezeClock()
+	terms, termsOK, deletes := 0, 0, 0
+	for _, e := range w.J.Calls[mark:] {
+		switch e.Kind {
+		case "Terminate":
+			terms++
+			if e.OK {
+				termsOK++
+			}
+			verifAssert("C19.no-termination-after-a-node-object-was-deleted", deletes == 0)
+		case "NodeDelete":
+			deletes++
+			verifAssert("C19.k8s-delete-only-after-whole-batch-accepted", termsOK == N)
+		}
+	}
+	desired := int64(N) + 1
+	allowed := desired-int64(N) >= asgMin
+	_, notInGroup := err.(*cloudprovider.NodeNotInNodeGroup)
+	switch {
+	case !allowed:
+		verifAssert("C19.refuses-whole-request", terms == 0 && deletes == 0)
+		verifReach("C19.big-batch-refused")
+	case foreignAt >= 0:
+		verifAssert("C19.not-in-group-stops-the-controller", notInGroup)
+		verifAssert("C19.no-k8s-delete-in-a-batch-with-a-foreign-node", deletes == 0)
+		verifReach("C19.big-batch-foreign")
+	case mode == 1:
+		verifAssert("C19.no-k8s-delete-after-a-rejected-termination", deletes == 0)
+		verifReach("C19.big-batch-failed-midway")
+	default:
+		verifAssert("C19.complete-batch", terms == N && deletes == N && err == nil)
+		verifReach("C19.big-batch-complete")
 	}
 }
